@@ -1,4 +1,5 @@
 import JoblibProofs.Lemmas.Lru
+import JoblibProofs.Lemmas.StoreLimits
 /-!
 # C18 — reduce_size enforces every limit by evicting the minimal LRU prefix
 
@@ -10,10 +11,26 @@ the evicted set is the shortest least-recently-used prefix meeting all limits.
 Quantifier reached here: inventories of ANY length, arbitrary sizes (including 0) and access
 times (including ties), every combination of the three limits (each absent or any integer).
 
-Model: `JoblibModel.Lru` (`_get_items_to_delete`). The deadline `now - age_limit` is an input.
+Model: `JoblibModel.Lru` (`_get_items_to_delete`) and `JoblibModel.StoreLimits` (the store as a directory tree,
+`get_items`, `memstr_to_bytes`, `enforce_store_limits` with its per-item `try/except OSError`, `clear_location` under
+a fault pattern, `Memory.reduce_size`). The deadline `now - age_limit` is an input.
+
+Second half of the file (store level): trees of ANY shape and size, every stat result (value or `OSError`), EVERY
+fault pattern `raises : Path → Bool`, `bytes_limit` as int or as any string. The end-to-end theorems
+(`reduce_size_limits_hold`, `reduce_size_evicts_minimal_lru_prefix`) carry the hypothesis `Separated`: no hash
+directory nested in another one. Without it the statement is FALSE of the code — `nested_hash_dir_counterexample`
+(a cached function whose name starts with 32 hex digits: its function directory is inventoried as an entry, and
+evicting it evicts every entry of the function); hence the `…_partial` reading: full statement
+
+    ∀ tree, after `reduceSize` the entries left are the survivors of the minimal LRU prefix
+
+is proved for `Separated` trees only.
 -/
 namespace C18
 open JoblibModel.Lru
+open JoblibModel.StoreLimits
+
+variable {α : Type}
 
 /-- Limits a caller can meaningfully ask for: non-negative byte and item limits.
 (With a negative limit nothing can satisfy it; the code then evicts everything — see
@@ -23,14 +40,14 @@ def WF (l : Limits) : Prop :=
 
 /-- Eviction order is an LRU order: a stable rearrangement of the inventory, non-decreasing in
 last access. -/
-theorem lru_order (items : List Item) :
+theorem lru_order (items : List (Item α)) :
     (sortByAccess items).Perm items ∧
     (sortByAccess items).Pairwise (fun a b => a.access ≤ b.access) :=
   ⟨sortByAccess_perm items, sortByAccess_sorted items⟩
 
 /-- The evicted entries are a prefix of the LRU order ("strictly from least to most recently
 accessed"). -/
-theorem deleted_is_prefix (items : List Item) (l : Limits) :
+theorem deleted_is_prefix (items : List (Item α)) (l : Limits) :
     itemsToDelete items l <+: sortByAccess items := by
   unfold itemsToDelete
   split
@@ -41,13 +58,13 @@ theorem deleted_is_prefix (items : List Item) (l : Limits) :
         (sortByAccess items) 0 0
       exact ⟨r, h.symm⟩
 
-theorem sat_nil (l : Limits) (hwf : WF l) : Sat [] l := by
+theorem sat_nil (l : Limits) (hwf : WF l) : Sat ([] : List (Item α)) l := by
   refine ⟨fun b hb => ?_, fun n hn => ?_, fun d _ it hit => by simp at hit⟩
   · simpa [total] using hwf.1 b hb
   · simpa using hwf.2 n hn
 
 /-- After the eviction every limit given holds on what is left. -/
-theorem limits_hold_after (items : List Item) (l : Limits) (hwf : WF l) :
+theorem limits_hold_after (items : List (Item α)) (l : Limits) (hwf : WF l) :
     Sat (survivors items l) l := by
   unfold survivors itemsToDelete
   split
@@ -102,7 +119,7 @@ theorem limits_hold_after (items : List Item) (l : Limits) (hwf : WF l) :
 /-- No shorter LRU prefix would do: stopping the eviction after any `k` entries fewer than were
 evicted leaves some limit violated. Together with `deleted_is_prefix` and `limits_hold_after`
 this is "the shortest least-recently-used prefix meeting all limits". -/
-theorem minimal (items : List Item) (l : Limits) (k : Nat)
+theorem minimal (items : List (Item α)) (l : Limits) (k : Nat)
     (hk : k < (itemsToDelete items l).length) :
     ¬ Sat ((sortByAccess items).drop k) l := by
   unfold itemsToDelete at hk
@@ -148,7 +165,7 @@ theorem minimal (items : List Item) (l : Limits) (k : Nat)
           simp only [fresh, decide_eq_true_eq]; exact this
 
 /-- No limit given ⇒ nothing evicted. -/
-theorem none_means_no_limit (items : List Item) :
+theorem none_means_no_limit (items : List (Item α)) :
     itemsToDelete items ⟨none, none, none⟩ = [] := by
   unfold itemsToDelete
   split
@@ -156,7 +173,7 @@ theorem none_means_no_limit (items : List Item) :
   · simp [nothingToDo, toDeleteSize, toDeleteItems]
 
 /-- Limits already satisfied ⇒ nothing evicted (no entry "evicted that did not have to be"). -/
-theorem satisfied_evicts_nothing (items : List Item) (l : Limits)
+theorem satisfied_evicts_nothing (items : List (Item α)) (l : Limits)
     (h : Sat (sortByAccess items) l) : itemsToDelete items l = [] := by
   cases hd : itemsToDelete items l with
   | nil => rfl
@@ -164,7 +181,7 @@ theorem satisfied_evicts_nothing (items : List Item) (l : Limits)
     exact absurd (by simpa using h) (minimal items l 0 (by rw [hd]; simp))
 
 /-- A negative byte or item limit cannot be met; the code evicts everything. -/
-theorem negative_limit_evicts_all_partial (items : List Item) (l : Limits)
+theorem negative_limit_evicts_all_partial (items : List (Item α)) (l : Limits)
     (hneg : (∃ b, l.bytes = some b ∧ b < 0) ∨ (∃ n, l.items = some n ∧ n < 0)) :
     survivors items l = [] := by
   cases hs : survivors items l with
@@ -183,7 +200,7 @@ theorem negative_limit_evicts_all_partial (items : List Item) (l : Limits)
       intro h; subst h; simp [sortByAccess] at hr; simp [hr] at hs
     have hne' : items.isEmpty = false := by simpa using hne
     rw [if_neg (by simp [hne'])] at hr
-    have htn := total_nonneg
+    have htn := @total_nonneg α
     by_cases hnt : nothingToDo items l = true
     · simp only [nothingToDo, Bool.and_eq_true, decide_eq_true_eq] at hnt
       obtain ⟨⟨h1, h2⟩, _⟩ := hnt
@@ -209,13 +226,403 @@ theorem negative_limit_evicts_all_partial (items : List Item) (l : Limits)
       · simp [toDeleteSize, hb] at b1; have := htn (x :: xs); omega
       · simp [toDeleteItems, hn] at b2; simp at hlen; omega
 
+
+/-! ## The store: inventory, size strings, deletion loop, `Memory.reduce_size` -/
+
+/-- `get_items`, when every stat succeeds, lists exactly the hash-named directories of the tree, each walked
+directory once, in walk order — identified by their PATHS, whatever their basenames: entries of two functions
+that have the same argument hash (same basename) are two items. -/
+theorem get_items_one_per_entry (t : Dir) (hok : StatOk t) :
+    (getItems t).map (·.id) = hashPaths t := by
+  unfold getItems hashPaths
+  rw [map_id_filterMap_itemOf]
+  congr 1
+  apply List.filter_congr
+  intro e he
+  rw [itemOf_eq_some_iff]
+  obtain ⟨h1, h2⟩ := hok e he
+  simp [lastAccess_isSome e h1, dirSize_isSome e.files h2]
+
+/-- The size of an item is the sum of the sizes of the files DIRECTLY in its directory (sub-directories do not
+count), and its age is that of `output.pkl`, else of the directory. -/
+theorem get_items_size_is_sum (t : Dir) (it : Item Path) (hit : it ∈ getItems t) :
+    ∃ e ∈ osWalk t, e.path = it.id ∧ isHashName e.name = true ∧
+      (∀ f ∈ e.files, f.size.isSome = true) ∧
+      it.size = (e.files.map (fun f => f.size.getD 0)).sum ∧
+      lastAccess e = some it.access := by
+  unfold getItems at hit
+  obtain ⟨e, he, hi⟩ := List.mem_filterMap.mp hit
+  obtain ⟨h1, h2, h3, h4⟩ := itemOf_some hi
+  obtain ⟨h5, h6⟩ := dirSize_spec e.files it.size h3
+  exact ⟨e, he, h4.symm, h1, h5, h6, h2⟩
+
+/-- A hash directory is skipped exactly when it cannot be read: neither `output.pkl` nor the directory gives an
+access time, or some file's size cannot be read. Everything else is an item. -/
+theorem get_items_skips_unreadable (t : Dir) :
+    (getItems t).map (·.id) =
+      ((osWalk t).filter (fun e =>
+        isHashName e.name && (lastAccess e).isSome && (dirSize e.files).isSome)).map (·.path) := by
+  unfold getItems
+  rw [map_id_filterMap_itemOf]
+  congr 1
+  apply List.filter_congr
+  intro e _
+  exact itemOf_eq_some_iff e
+
+/-- Whatever `clear_location` calls raise `OSError`, the loop of `enforce_store_limits` calls it for EVERY selected
+item, in the order selected (the LRU order), and the tree it leaves does not depend on which calls raised. -/
+theorem enforce_attempts_every_selected (raises : Path → Bool) (bytes : Option BytesArg) (b items deadline : Option Int)
+    (t t' : Dir) (calls : List Path) (hb : resolveBytes bytes = .ok b)
+    (h : enforceStoreLimits bytes items deadline raises t = .returned t' calls) :
+    calls = (itemsToDelete (getItems t) ⟨b, items, deadline⟩).map (·.id) ∧
+    (itemsToDelete (getItems t) ⟨b, items, deadline⟩) <+: sortByAccess (getItems t) ∧
+    t' = clearAll (itemsToDelete (getItems t) ⟨b, items, deadline⟩) t := by
+  unfold enforceStoreLimits at h
+  rw [hb] at h
+  simp only [enforceLoop_eq, List.nil_append] at h
+  injection h with h1 h2
+  exact ⟨h2.symm, itemsToDelete_prefix _ _, h1.symm⟩
+
+/-- The loop itself, for every selection and fault pattern. -/
+theorem enforce_loop_calls (raises : Path → Bool) (sel : List (Item Path)) (t : Dir) :
+    (enforceLoop raises sel t []).2 = sel.map (·.id) := by
+  simp [enforceLoop_eq]
+
+/-- The path condition `Separated` is what a tree "without a hash directory nested in another one" satisfies:
+sibling names distinct (any file system), no hash-named directory below a hash-named one, store location not
+hash-named. -/
+theorem no_nesting_separated (t : Dir) (h : NoNesting t) : Separated t := separated_of_noNesting t h
+
+/-- The inventory left by an outcome (`none` = it raised). -/
+def inventoryAfter : Outcome → Option (List (Item Path))
+  | .returned t _ => some (getItems t)
+  | .raised _ => none
+
+def callsOf : Outcome → Option (List Path)
+  | .returned _ c => some c
+  | .raised _ => none
+
+theorem separated_items {t : Dir} (hsep : Separated t) :
+    (∀ it ∈ getItems t, it.id ≠ []) ∧
+    ((getItems t).map (·.id)).Pairwise (fun a b => ¬ a <+: b ∧ ¬ b <+: a) := by
+  have hsub := itemIds_sublist_hashPaths t
+  refine ⟨fun it hit h => hsep.1 ?_, hsep.2.sublist hsub⟩
+  exact hsub.subset (h ▸ List.mem_map_of_mem hit)
+
+/-- What `reduce_size` leaves, as an inventory: for a store without nested hash directories, a rearrangement of
+the survivors of the selection — for every fault pattern. -/
+theorem reduce_size_inventory_after (t t' : Dir) (bytes : Option BytesArg) (b items deadline : Option Int)
+    (raises : Path → Bool) (calls : List Path) (hb : resolveBytes bytes = .ok b) (hsep : Separated t)
+    (h : reduceSize true bytes items deadline raises t = .returned t' calls) :
+    (getItems t').Perm (survivors (getItems t) ⟨b, items, deadline⟩) ∧
+    calls = (itemsToDelete (getItems t) ⟨b, items, deadline⟩).map (·.id) := by
+  obtain ⟨hne, hpw⟩ := separated_items hsep
+  unfold reduceSize at h
+  simp only [Bool.not_true, Bool.false_eq_true, if_false] at h
+  split at h
+  · rename_i hnone
+    simp only [Bool.and_eq_true, Option.isNone_iff_eq_none] at hnone
+    obtain ⟨⟨h1, h2⟩, h3⟩ := hnone
+    subst h1 h2 h3
+    injection h with h1 h2
+    subst h1 h2
+    have : b = none := by simpa [resolveBytes] using hb.symm
+    subst this
+    have hdel := none_means_no_limit (getItems t)
+    unfold survivors
+    rw [hdel]
+    exact ⟨by simpa using (sortByAccess_perm (getItems t)).symm, rfl⟩
+  · obtain ⟨hc, _, ht⟩ := enforce_attempts_every_selected raises bytes b items deadline t t' calls hb h
+    refine ⟨?_, hc⟩
+    rw [ht, getItems_clearAll _ _ (fun s hs => hne s ?_)]
+    · exact filter_keeps_perm_survivors (getItems t) _ hpw
+    · have := (itemsToDelete_prefix (getItems t) ⟨b, items, deadline⟩).subset hs
+      exact (sortByAccess_perm (getItems t)).mem_iff.mp this
+
+/-- The store location itself is not inventoried as an item (its basename does not start with 32 hex digits, or it
+is unreadable). Always true for `Memory(location: str)`, whose store is `<location>/joblib`. -/
+def RootNotItem (t : Dir) : Prop := ∀ it ∈ getItems t, it.id ≠ []
+
+theorem separated_rootNotItem {t : Dir} (h : Separated t) : RootNotItem t := (separated_items h).1
+
+/-- END TO END. After `Memory.reduce_size(bytes_limit, items_limit, age_limit)` returns, the inventory of the store
+satisfies every limit given — for EVERY tree in which the store location itself is not an item (nested hash
+directories allowed), every `bytes_limit` (int, or string: then the limit is its `memstr_to_bytes` value), and EVERY
+fault pattern of `clear_location` (the stale-handle `OSError` of a vanished entry does not stop the loop). -/
+theorem reduce_size_limits_hold (t t' : Dir) (bytes : Option BytesArg) (b items deadline : Option Int)
+    (raises : Path → Bool) (calls : List Path) (hb : resolveBytes bytes = .ok b)
+    (hwf : WF ⟨b, items, deadline⟩) (hroot : RootNotItem t)
+    (h : reduceSize true bytes items deadline raises t = .returned t' calls) :
+    Sat (getItems t') ⟨b, items, deadline⟩ := by
+  unfold reduceSize at h
+  simp only [Bool.not_true, Bool.false_eq_true, if_false] at h
+  split at h
+  · rename_i hnone
+    simp only [Bool.and_eq_true, Option.isNone_iff_eq_none] at hnone
+    obtain ⟨⟨h1, h2⟩, h3⟩ := hnone
+    subst h1 h2 h3
+    injection h with h1 h2
+    subst h1
+    have : b = none := by simpa [resolveBytes] using hb.symm
+    subst this
+    exact ⟨fun _ h => by simp at h, fun _ h => by simp at h, fun _ h => by simp at h⟩
+  · obtain ⟨_, _, ht⟩ := enforce_attempts_every_selected raises bytes b items deadline t t' calls hb h
+    rw [ht, getItems_clearAll _ _ (fun s hs => hroot s ?_)]
+    · obtain ⟨R', hsub, hperm⟩ := filter_keeps_sub_survivors (getItems t) ⟨b, items, deadline⟩
+      exact sat_perm hperm.symm _ (sat_sublist hsub _ (limits_hold_after (getItems t) _ hwf))
+    · have := (itemsToDelete_prefix (getItems t) ⟨b, items, deadline⟩).subset hs
+      exact (sortByAccess_perm (getItems t)).mem_iff.mp this
+
+/-- The same for `Separated` trees (no hash directory nested in another one), the hypothesis of the minimality
+theorem below. -/
+theorem reduce_size_limits_hold_separated (t t' : Dir) (bytes : Option BytesArg) (b items deadline : Option Int)
+    (raises : Path → Bool) (calls : List Path) (hb : resolveBytes bytes = .ok b)
+    (hwf : WF ⟨b, items, deadline⟩) (hsep : Separated t)
+    (h : reduceSize true bytes items deadline raises t = .returned t' calls) :
+    Sat (getItems t') ⟨b, items, deadline⟩ :=
+  reduce_size_limits_hold t t' bytes b items deadline raises calls hb hwf (separated_rootNotItem hsep) h
+
+/-- Without `RootNotItem` even "the limits hold" is FALSE of the code. Witness: `Memory(pathlib.Path(".../<32 hex
+digits>"))` (a `Path` location is used as it is, no `joblib` sub-directory): the store location is inventoried as an
+item, `clear_location(self.location)` is `rm_subdirs`, which keeps the location and its files — after
+`reduce_size(items_limit=0)` the inventory still has one item. -/
+def hashRootStore : Dir :=
+  .mk "0123456789abcdef0123456789abcdef" (some 500) [⟨".gitignore", some 37, some 0⟩] [
+    .mk "mod" (some 900) [] [
+      .mk "f" (some 900) [⟨"func_code.py", some 73, some 0⟩] [
+        .mk "7b3337d59e2b737bfc2c2faddac9f48c" (some 900) [⟨"output.pkl", some 104, some 200⟩] []]]]
+
+theorem hash_named_root_counterexample :
+    callsOf (reduceSize true none (some 0) none (fun _ => false) hashRootStore)
+      = some [["mod", "f", "7b3337d59e2b737bfc2c2faddac9f48c"], []] ∧
+    inventoryAfter (reduceSize true none (some 0) none (fun _ => false) hashRootStore) = some [⟨[], 37, 500⟩] ∧
+    ¬ Sat ([⟨[], 37, 500⟩] : List (Item Path)) ⟨none, some 0, none⟩ := by
+  refine ⟨by decide, by decide, ?_⟩
+  intro h
+  have := h.2.1 0 rfl
+  simp at this
+
+/-- END TO END, minimality and order. The `clear_location` calls of `reduce_size` are, in order, the first
+`calls.length` entries of the LRU order of the inventory; what is left is the rest of that order; and stopping
+any earlier (after `k < calls.length` entries) would have left some limit violated. Same quantifiers as
+`reduce_size_limits_hold` (no well-formedness of the limits needed). -/
+theorem reduce_size_evicts_minimal_lru_prefix (t t' : Dir) (bytes : Option BytesArg) (b items deadline : Option Int)
+    (raises : Path → Bool) (calls : List Path) (hb : resolveBytes bytes = .ok b) (hsep : Separated t)
+    (h : reduceSize true bytes items deadline raises t = .returned t' calls) :
+    calls = ((sortByAccess (getItems t)).take calls.length).map (·.id) ∧
+    (getItems t').Perm ((sortByAccess (getItems t)).drop calls.length) ∧
+    ∀ k, k < calls.length → ¬ Sat ((sortByAccess (getItems t)).drop k) ⟨b, items, deadline⟩ := by
+  obtain ⟨hperm, hc⟩ := reduce_size_inventory_after t t' bytes b items deadline raises calls hb hsep h
+  have hlen : calls.length = (itemsToDelete (getItems t) ⟨b, items, deadline⟩).length := by
+    rw [hc, List.length_map]
+  obtain ⟨r, hr⟩ := itemsToDelete_prefix (getItems t) ⟨b, items, deadline⟩
+  refine ⟨?_, ?_, ?_⟩
+  · rw [hlen, ← hr, List.take_left', ← hc]
+    rfl
+  · rw [hlen]; exact hperm
+  · intro k hk
+    exact minimal (getItems t) _ k (hlen ▸ hk)
+
+/-- Without the hypothesis `Separated` the end-to-end minimality is FALSE of the code. Witness: the cached function
+is called `deadbeefdeadbeefdeadbeefdeadbeef`; its function directory (holding `func_code.py`, last listed before
+the three entries were last read) matches `[a-f0-9]{32}` and is inventoried as a fourth item; `items_limit=3` — which
+the three entries already meet — selects it as the least recently used item, and `rmtree` of the function
+directory evicts all three entries. -/
+def nestedStore : Dir :=
+  .mk "joblib" (some 900) [⟨".gitignore", some 29, some 0⟩] [
+    .mk "mod" (some 900) [] [
+      .mk "deadbeefdeadbeefdeadbeefdeadbeef" (some 150) [⟨"func_code.py", some 73, some 0⟩] [
+        .mk "7b3337d59e2b737bfc2c2faddac9f48c" (some 900)
+          [⟨"output.pkl", some 104, some 200⟩, ⟨"metadata.json", some 100, some 0⟩] [],
+        .mk "5556f19cc5d04fa9894538e16fcc7603" (some 900)
+          [⟨"output.pkl", some 104, some 300⟩, ⟨"metadata.json", some 100, some 0⟩] [],
+        .mk "ce2175f47fb032fbcae50bc876000a6f" (some 900)
+          [⟨"output.pkl", some 104, some 400⟩, ⟨"metadata.json", some 100, some 0⟩] []]]]
+
+theorem nested_hash_dir_counterexample :
+    (getItems nestedStore).length = 4 ∧
+    callsOf (reduceSize true none (some 3) none (fun _ => false) nestedStore)
+      = some [["mod", "deadbeefdeadbeefdeadbeefdeadbeef"]] ∧
+    inventoryAfter (reduceSize true none (some 3) none (fun _ => false) nestedStore) = some [] ∧
+    (survivors (getItems nestedStore) ⟨none, some 3, none⟩).length = 3 := by
+  decide
+
+/-- `memstr_to_bytes` on the modelled grammar, with a point: sign, integer digits `ip`, `.`, fractional digits `fp`
+(not both empty), unit `K|M|G` = `2^k` → exactly `trunc(± (ip·10^|fp| + fp) · 2^k / 10^|fp|)`, i.e. the value
+`ip.fp × unit` truncated toward zero, in exact integer arithmetic. -/
+theorem memstr_exact (sign : List Char) (neg : Bool) (ip fp : List Char) (u : Char) (k : Nat)
+    (hsign : (sign = [] ∧ neg = false) ∨ (sign = ['+'] ∧ neg = false) ∨ (sign = ['-'] ∧ neg = true))
+    (hip : ∀ c ∈ ip, isDigit c = true) (hfp : ∀ c ∈ fp, isDigit c = true)
+    (hne : ¬ (ip = [] ∧ fp = [])) (hu : unitExp u = some k) :
+    memstrChars (sign ++ ip ++ '.' :: fp ++ [u]) =
+      .ok (scaled neg (natOfDigits 0 ip * 10 ^ fp.length + natOfDigits 0 fp) fp.length k) := by
+  have hassoc : sign ++ ip ++ '.' :: fp ++ [u] = (sign ++ (ip ++ '.' :: fp)) ++ [u] := by simp
+  rw [hassoc, memstrChars_concat, hu]
+  have hdotA : inAlphabet '.' = true := by decide
+  have hall : (sign ++ (ip ++ '.' :: fp)).all inAlphabet = true := by
+    simp only [List.all_append, List.all_cons, hdotA, Bool.true_and, Bool.and_eq_true, List.all_eq_true]
+    refine ⟨?_, fun c hc => isDigit_inAlphabet (hip c hc), fun c hc => isDigit_inAlphabet (hfp c hc)⟩
+    rcases hsign with ⟨rfl, _⟩ | ⟨rfl, _⟩ | ⟨rfl, _⟩ <;> intro c hc <;> simp at hc <;> subst hc <;> decide
+  have hpu := parseUnsigned_point ip fp hip hfp hne
+  have hpm : parseMantissa (sign ++ (ip ++ '.' :: fp))
+      = some (neg, natOfDigits 0 (ip ++ fp), fp.length) := by
+    rcases hsign with ⟨rfl, rfl⟩ | ⟨rfl, rfl⟩ | ⟨rfl, rfl⟩
+    · rw [List.nil_append, parseMantissa_unsigned, hpu]; · rfl
+      intro c hc
+      cases ip with
+      | nil => simp at hc; subst hc; decide
+      | cons d r =>
+        simp at hc; subst hc
+        have := hip d (by simp)
+        constructor <;> (intro h; subst h; revert this; decide)
+    · simp [parseMantissa, hpu]
+    · simp [parseMantissa, hpu]
+  simp only [hall, if_true, hpm, natOfDigits_split]
+
+/-- The same without a point: sign, digits (at least one), unit → `± digits · 2^k`. -/
+theorem memstr_exact_int (sign : List Char) (neg : Bool) (ip : List Char) (u : Char) (k : Nat)
+    (hsign : (sign = [] ∧ neg = false) ∨ (sign = ['+'] ∧ neg = false) ∨ (sign = ['-'] ∧ neg = true))
+    (hip : ∀ c ∈ ip, isDigit c = true) (hne : ip ≠ []) (hu : unitExp u = some k) :
+    memstrChars (sign ++ ip ++ [u]) = .ok (scaled neg (natOfDigits 0 ip) 0 k) := by
+  rw [memstrChars_concat, hu]
+  have hall : (sign ++ ip).all inAlphabet = true := by
+    simp only [List.all_append, Bool.and_eq_true, List.all_eq_true]
+    refine ⟨?_, fun c hc => isDigit_inAlphabet (hip c hc)⟩
+    rcases hsign with ⟨rfl, _⟩ | ⟨rfl, _⟩ | ⟨rfl, _⟩ <;> intro c hc <;> simp at hc <;> subst hc <;> decide
+  have hpu := parseUnsigned_int ip hip hne
+  have hpm : parseMantissa (sign ++ ip) = some (neg, natOfDigits 0 ip, 0) := by
+    rcases hsign with ⟨rfl, rfl⟩ | ⟨rfl, rfl⟩ | ⟨rfl, rfl⟩
+    · rw [List.nil_append, parseMantissa_unsigned, hpu]; · rfl
+      intro c hc
+      cases ip with
+      | nil => exact absurd rfl hne
+      | cons d r =>
+        simp at hc; subst hc
+        have := hip d (by simp)
+        constructor <;> (intro h; subst h; revert this; decide)
+    · simp [parseMantissa, hpu]
+    · simp [parseMantissa, hpu]
+  simp only [hall, if_true, hpm]
+
+/-- `scaled` IS truncation toward zero of `± n · 2^k / 10^f`. -/
+theorem scaled_is_trunc (neg : Bool) (n f k : Nat) :
+    scaled neg n f k = Int.tdiv ((if neg then -1 else 1) * ((n * 2 ^ k : Nat) : Int)) ((10 ^ f : Nat) : Int) := by
+  cases neg
+  · simp only [scaled, Bool.false_eq_true, if_false, Int.one_mul]
+    rw [← Int.ofNat_tdiv]
+  · simp only [scaled, if_true, Int.neg_mul, Int.one_mul, Int.neg_tdiv]
+    rw [← Int.ofNat_tdiv]
+
+/-- The arithmetic core of "the float computation gives the exact value" (header of `StoreLimits.lean`): let
+`x = p/q` be ANY rational — in the code the double `float(text[:-1])` — whose distance from the mantissa `n/10^f`,
+scaled by the unit `2^k`, is below `10^-f` (`|p·10^f − n·q| · 2^k < q`; for the correctly rounded double this follows
+from `n · 2^k < 2^53`). If `2^k · n/10^f` is not an integer, `int(2^k · x)` is the model's value. (If it is an
+integer below `2^53`, the mantissa is itself a double and `x` is exact.) The IEEE rounding bound is the one step
+left to the correspondence. -/
+theorem memstr_float_margin (n f k p q : Nat) (hnonint : (n * 2 ^ k) % 10 ^ f ≠ 0)
+    (herr1 : p * 2 ^ k * 10 ^ f < n * 2 ^ k * q + q) (herr2 : n * 2 ^ k * q < p * 2 ^ k * 10 ^ f + q) :
+    scaled false n f k = ((p * 2 ^ k / q : Nat) : Int) := by
+  simp only [scaled, Bool.false_eq_true, if_false]
+  rw [trunc_robust (n * 2 ^ k) (10 ^ f) (p * 2 ^ k) q (Nat.pow_pos (by decide)) hnonint herr1 herr2]
+
+/-- Non-vacuity: `'0.1K'`; the double nearest to 0.1 is 3602879701896397 / 2^55; 102.4 truncates to 102 either way. -/
+example : scaled false 1 1 10 = ((3602879701896397 * 2 ^ 10 / 2 ^ 55 : Nat) : Int) :=
+  memstr_float_margin 1 1 10 3602879701896397 (2 ^ 55) (by decide) (by decide) (by decide)
+
+/-- A string whose last character is not `K`, `M` or `G` is a `ValueError`, whatever precedes it (also characters
+outside the modelled alphabet); the empty string is an `IndexError`. -/
+theorem memstr_rejects_bad_unit (m : List Char) (u : Char) (hu : u ≠ 'K' ∧ u ≠ 'M' ∧ u ≠ 'G') :
+    memstrChars (m ++ [u]) = .valueError ∧ memstrChars [] = .indexError := by
+  refine ⟨?_, rfl⟩
+  rw [memstrChars_concat]
+  simp [unitExp, hu.1, hu.2.1, hu.2.2]
+
+/-- A malformed mantissa over the modelled alphabet is a `ValueError` too (here: the witnesses of the harness's
+malformed stream), and `reduce_size` then raises before the store is read. -/
+theorem memstr_rejects_malformed :
+    memstrToBytes "K" = .valueError ∧ memstrToBytes "1.2.3K" = .valueError ∧ memstrToBytes "--1K" = .valueError ∧
+    memstrToBytes ".K" = .valueError ∧ memstrToBytes "+K" = .valueError ∧ memstrToBytes "10" = .valueError ∧
+    memstrToBytes "1k" = .valueError ∧ memstrToBytes "" = .indexError ∧ memstrToBytes "1 K" = .outside := by
+  decide
+
+/-- No limit given (all three `None`), or `Memory(location=None)`: nothing is called, the store is unchanged —
+whatever the tree, the fault pattern and (without a backend) the arguments. -/
+theorem no_limits_no_change (t : Dir) (raises : Path → Bool) (bytes : Option BytesArg) (items deadline : Option Int) :
+    reduceSize true none none none raises t = .returned t [] ∧
+    reduceSize false bytes items deadline raises t = .returned t [] := by
+  constructor <;> simp [reduceSize]
+
+/-- Limits already met by the inventory: no `clear_location` call at all, the tree is returned as it was. -/
+theorem satisfied_store_untouched (t : Dir) (bytes : Option BytesArg) (b items deadline : Option Int)
+    (raises : Path → Bool) (hb : resolveBytes bytes = .ok b)
+    (hsat : Sat (sortByAccess (getItems t)) ⟨b, items, deadline⟩) :
+    reduceSize true bytes items deadline raises t = .returned t [] := by
+  unfold reduceSize
+  simp only [Bool.not_true, Bool.false_eq_true, if_false]
+  split
+  · rfl
+  · unfold enforceStoreLimits
+    rw [hb]
+    simp only [satisfied_evicts_nothing (getItems t) _ hsat, enforceLoop]
+
 /-! Non-vacuity: concrete inventories meet the hypotheses and exercise every limit. -/
-def ex : List Item := [⟨0, 10, 300⟩, ⟨1, 0, 100⟩, ⟨2, 7, 100⟩, ⟨3, 5, 200⟩]
+def ex : List (Item Nat) := [⟨0, 10, 300⟩, ⟨1, 0, 100⟩, ⟨2, 7, 100⟩, ⟨3, 5, 200⟩]
 example : WF ⟨some 12, some 3, some 150⟩ := by
   refine ⟨?_, ?_⟩ <;> intro x h <;> simp at h <;> omega
 example : (itemsToDelete ex ⟨some 12, none, none⟩).map (·.id) = [1, 2, 3] := by decide
 example : (itemsToDelete ex ⟨none, some 3, none⟩).map (·.id) = [1] := by decide
 example : (itemsToDelete ex ⟨none, none, some 150⟩).map (·.id) = [1, 2] := by decide
 example : (itemsToDelete ex ⟨some 22, some 4, some 50⟩).map (·.id) = [] := by decide
+
+/-! Non-vacuity of the store-level theorems. One store, two cached functions `f` and `g` called with EQUAL arguments
+(equal entry basenames), a name that merely starts with 32 hex digits, a stray directory with 31 digits, a
+sub-directory inside an entry (its files do not count), an unreadable entry. -/
+def H1 : String := "0123456789abcdef0123456789abcdef"
+def H2 : String := "fedcba9876543210fedcba9876543210"
+def exStore : Dir :=
+  .mk "joblib" (some 900) [⟨".gitignore", some 29, some 0⟩] [
+    .mk "f" (some 900) [⟨"func_code.py", some 50, some 0⟩] [
+      .mk H1 (some 900) [⟨"output.pkl", some 100, some 300⟩, ⟨"metadata.json", some 20, some 0⟩]
+        [.mk "sub" (some 0) [⟨"big", some 5000, some 0⟩] []],
+      .mk H2 (some 900) [⟨"output.pkl", some 200, some 100⟩] []],
+    .mk "g" (some 900) [⟨"func_code.py", some 50, some 0⟩] [
+      .mk H1 (some 900) [⟨"output.pkl", some 300, some 200⟩] [],
+      .mk (H2 ++ "_tmp") (some 250) [⟨"metadata.json", some 7, some 0⟩] [],
+      .mk "0123456789abcdef0123456789abcde" (some 1) [⟨"output.pkl", some 999, some 1⟩] []]]
+
+example : StatOk exStore := by unfold StatOk; decide
+example : Separated exStore := by unfold Separated; decide
+example : NoNesting exStore := by unfold NoNesting; decide
+example : ¬ NoNesting nestedStore := by unfold NoNesting; decide
+example : ¬ Separated nestedStore := by unfold Separated; decide
+/-- Two items with the same basename `H1` (under `f` and under `g`), the prefix-named one, not the 31-digit one;
+the size of `f/H1` is 120: the 5000 bytes of its sub-directory do not count. -/
+example : getItems exStore =
+    [⟨["f", H1], 120, 300⟩, ⟨["f", H2], 200, 100⟩, ⟨["g", H1], 300, 200⟩, ⟨["g", H2 ++ "_tmp"], 7, 250⟩] := by
+  decide
+example : hashPaths exStore = [["f", H1], ["f", H2], ["g", H1], ["g", H2 ++ "_tmp"]] := by decide
+/-- A `getsize` that raises hides the whole entry; an unreadable `output.pkl` falls back to the directory. -/
+example : getItems (.mk "joblib" (some 9) [] [
+    .mk H1 (some 9) [⟨"output.pkl", some 1, some 5⟩, ⟨"x.tmp", none, none⟩] [],
+    .mk H2 (some 7) [⟨"output.pkl", some 3, none⟩] [],
+    .mk (H2 ++ "0") none [⟨"metadata.json", some 3, some 1⟩] []]) = [⟨[H2], 3, 7⟩] := by decide
+/-- items_limit=2 with the stale-handle fault on the FIRST victim: both victims are still attempted, in LRU order,
+and two items are left. -/
+example : callsOf (reduceSize true none (some 2) none (fun p => p == ["f", H2]) exStore)
+    = some [["f", H2], ["g", H1]] := by decide
+example : inventoryAfter (reduceSize true none (some 2) none (fun p => p == ["f", H2]) exStore)
+    = some [⟨["f", H1], 120, 300⟩, ⟨["g", H2 ++ "_tmp"], 7, 250⟩] := by decide
+/-- bytes_limit as a string: `'0.12K'` = 122 bytes (122.88 truncated) → three evictions, every call raising. -/
+example : callsOf (reduceSize true (some (.str "0.12K")) none none (fun _ => true) exStore)
+    = some [["f", H2], ["g", H1], ["g", H2 ++ "_tmp"]] := by decide
+example : resolveBytes (some (.str "0.12K")) = .ok (some 122) := by rfl
+example : WF ⟨some 122, some 2, none⟩ := by
+  refine ⟨?_, ?_⟩ <;> intro x h <;> simp at h <;> omega
+example : callsOf (reduceSize true (some (.str "1.2.3K")) (some 0) none (fun _ => false) exStore) = none := by decide
+example : memstrToBytes "1.5K" = .ok 1536 ∧ memstrToBytes "-1.5K" = .ok (-1536) ∧ memstrToBytes "0.001M" = .ok 1048 ∧
+    memstrToBytes ".5K" = .ok 512 ∧ memstrToBytes "1.K" = .ok 1024 ∧ memstrToBytes "+2G" = .ok 2147483648 ∧
+    memstrToBytes "1.4990234375K" = .ok 1535 ∧ memstrToBytes "-0K" = .ok 0 := by decide
+example : callsOf (reduceSize true none none none (fun _ => true) exStore) = some [] := by decide
+example : callsOf (reduceSize false none (some 0) none (fun _ => true) exStore) = some [] := by decide
 
 end C18
